@@ -485,7 +485,10 @@ impl<Word: BitArray, B: WriteWords<Word>> StackCoder<Word, B> {
                 // A stack of compressed data must not end in a zero word.
                 return Err(CoderError::Frontend(compressed));
             }
-            let mask_end_bit = Word::one() << last_word.trailing_zeros() as usize;
+            // Bits are written from the least significant end, so the terminal "one" bit that
+            // `into_compressed` appends is the *most* significant set bit of the last word.
+            let mask_end_bit =
+                Word::one() << (Word::BITS - 1 - last_word.leading_zeros() as usize);
             (last_word ^ mask_end_bit, mask_end_bit >> 1)
         } else {
             (Word::zero(), Word::zero())
